@@ -152,7 +152,7 @@ class Mon:
     def attach(self):
         from pydrobert.speech import util as U
 
-        monitor.attach(U, "read_signal", pre=self.pre, post=self.post, is_method=False)
+        monitor.attach(U, "read_signal", pre=self.pre, post=self.post, is_method=False, ambient=self.v, ambient_ok=monitor.named_file)
         monitor.attach(U, "wds_read_signal", post=self.post_wds, is_method=False, reentrant=True)
 
     def v(self, what, **kw):
